@@ -6,6 +6,7 @@
      Brk s    `break` with state s
      Ret r    `return r` from the enclosing function
    and the loop itself yields  Done s  (left normally or by `break`)  or  Retd r  (returned). *)
+From Coq Require Export ZArith.
 From QwtModel Require Export ListX.
 
 Inductive step (S R : Type) : Type :=
@@ -75,3 +76,17 @@ Definition wshr (w x n : N) : N := N.shiftr x (n mod w).
 
 (* f64::sqrt(x as f64) as usize, exact for x < 2^52 (every value a slice index difference takes) *)
 Definition fsqrt (x : N) : N := N.sqrt x.
+
+(* ---- signed integers (i32 ...): values are Z within the type's range *)
+(* `x as iW`: two's complement wrap *)
+Definition zwrap (w : N) (z : Z) : Z :=
+  let m := Z.modulo z (2 ^ Z.of_N w) in
+  if Z.ltb m (2 ^ (Z.of_N w - 1)) then m else (m - 2 ^ Z.of_N w)%Z.
+Definition zin (w : N) (z : Z) : bool :=
+  Z.leb (- 2 ^ (Z.of_N w - 1)) z && Z.ltb z (2 ^ (Z.of_N w - 1)).
+Definition ziadd (w : N) (a b : Z) : outcome Z :=
+  if zin w (a + b)%Z then Val (a + b)%Z else Fault Overflow.
+Definition zisub (w : N) (a b : Z) : outcome Z :=
+  if zin w (a - b)%Z then Val (a - b)%Z else Fault Overflow.
+(* a signed shift amount: negative = overflow (panic with overflow checks) *)
+Definition zshamt (z : Z) : outcome N := if Z.ltb z 0 then Fault Overflow else Val (Z.to_N z).
